@@ -78,7 +78,11 @@ func panicKey(stack string) string {
 // judge inspects the accept outcomes of one hostile input and then lets an
 // honest node connect.
 func (e *env) judge(t vkit.TB, class string, detail func() any, expectConn bool) bool {
+	e.rig.StallIsResult = true
 	outs := e.rig.Sync()
+	if e.rig.Stalled {
+		return !vkit.Violate(t, prop, "C14/listener-stalled/"+class, "after this input the listener stopped producing outcomes: a probe connection made afterwards is still inside Accept after 25 s", detail())
+	}
 	for _, o := range outs {
 		if o.Conn != nil {
 			defer o.Conn.Close()
@@ -99,6 +103,9 @@ func (e *env) judge(t vkit.TB, class string, detail func() any, expectConn bool)
 	// the honest node still connects
 	conn, err := e.rig.Dial(e.node)
 	hon := e.rig.Sync()
+	if e.rig.Stalled {
+		return !vkit.Violate(t, prop, "C14/listener-stalled/"+class, "the honest follow-up node is still inside Accept after 25 s", detail())
+	}
 	if conn != nil {
 		defer conn.Close()
 	}
@@ -209,7 +216,7 @@ func TestProp_HostileInputs(t *testing.T) {
 		}
 	}()
 	rapid.Check(t, func(t *rapid.T) {
-		if e == nil || e.used >= 200 || len(e.rig.Final) > 0 {
+		if e == nil || e.used >= 200 || len(e.rig.Final) > 0 || e.rig.Stalled {
 			if e != nil {
 				e.close()
 			}
